@@ -6,6 +6,7 @@ import (
 )
 
 func process1(obj any, mergeFrom *Document, mergeFromDocs []*Document, depth int) (any, error) {
+	verifStep(verifSiteProcess1)
 	depth++
 
 	if depth > 1000 {
